@@ -23,16 +23,27 @@ structure TablesOK (T : Tables) : Prop where
   hex : ∀ d, d < 16 → lookup T.hexDec 0 (hexUpper d) = d + 1
   space_sp : inRanges T.space 0x20 = true
   pn_sp : inRanges T.pnChars 0x20 = false
+  /-- `.` is not a PN_CHARS rune (else a label ending in `.` would satisfy `labelOK` yet lose its dot). -/
+  pn_dot : inRanges T.pnChars 0x2e = false
+  /-- the openers `<` and `_` of a graph label are not white space (`afterObject` tests `isSpace` first). -/
+  space_lt : inRanges T.space 0x3c = false
+  space_us : inRanges T.space 0x5f = false
 
 /-- Extra facts for the ASCII option and for grammaticality. -/
 structure TablesAscii (T : Tables) : Prop where
   iri_ascii : ∀ c, lookup (T.iriEsc true) 0 c = 0 → c < 0x80
   lit_ascii : ∀ c, lookup (T.litEsc true) 0 c = 0 → c < 0x80
   echar_ascii : ∀ c, lookup T.echar 0 c < 0x80
+  /-- no escape mode outside the ones the writers handle (any other mode writes the rune raw). -/
+  iri_mode_a : ∀ c, lookup (T.iriEsc true) 0 c ≤ 2
+  lit_mode_a : ∀ c, lookup (T.litEsc true) 0 c ≤ 3
 
 /-- Extra fact for grammaticality: a raw rune in a literal is never LF or CR. -/
 structure TablesGrammar (T : Tables) : Prop where
   lit_raw_eol : ∀ a c, lookup (T.litEsc a) 0 c = 0 → c ≠ 0x0a ∧ c ≠ 0x0d
+  /-- LF is in neither label class (else a `labelOK` label could contain a line break). -/
+  pnU_lf : inRanges T.pnCharsU 0x0a = false
+  pn_lf : inRanges T.pnChars 0x0a = false
 
 /-- Language tag `[a-zA-Z]+ ('-' [a-zA-Z0-9]+)*`, as a Boolean recogniser. -/
 def langRest : List Nat → Bool → Bool
